@@ -36,6 +36,8 @@ func runC13(c *core.Ctx) {
 	c.Rule("C13.keys", "A7: per AST node type, the keys written by MarshalJSON and read by unmarshal are the same set, bind the same struct field, and the reader is of the setter's kind")
 	c.Rule("C13.equalfields", "A7: every field a node's Equal compares is written by MarshalJSON and assigned by unmarshal")
 	c.Rule("C13.factory", "A9: JSONNode.getNode never reaches n.unmarshal with n unset (unknown typeOf ⇒ error)")
+	c.Rule("C13.codec", "A7: a value written with pkg.Format<S> is read back with pkg.Parse<S> of the same package (JSONNode.SetDuration/Duration and every pipeline node's MarshalJSON/UnmarshalJSON pair): two duration syntaxes (influxql: w,d,u vs. Go: none of them) do not round-trip")
+	c.Rule("C13.strescape", "A1: StringNode.Format writes a single-quoted literal rune by rune and puts a backslash in front of a rune exactly when that rune is the quote (the parser's newString removes a backslash exactly in front of a quote)")
 	c.Rule("C13.pipetype", "A7: per pipeline node type, the typeOf literal(s) written by MarshalJSON equal those accepted by UnmarshalJSON")
 	c.Rule("C13.registry", "A7: every typeOf a pipeline node marshals is a key of exactly one construction registry, and a chainFunctions/multiParents factory yields the node type that marshals that key")
 	c.Rule("C13.parent", "A7: every chain node type that can be marshalled is accepted as a parent on read: it implements chainnodeAlias or isChainNode has a case for it")
@@ -45,6 +47,8 @@ func runC13(c *core.Ctx) {
 
 	if pkg := c.P.Pkg("tick/ast"); pkg != nil {
 		c13AST(c, pkg)
+		c13Codec(c, pkg, "JSONNode", "SetDuration", "JSONNode", "Duration")
+		c13StrEscape(c, pkg)
 	} else {
 		c.Undecided("C13.typeof", "anchor:tick/ast", token.NoPos, "package not loaded")
 	}
@@ -560,6 +564,7 @@ func c13Pipeline(c *core.Ctx, pkg *packages.Package) {
 			}
 		}
 		c13Override(c, pkg, tn, m, u)
+		c13CodecFuncs(c, pkg, tn, m, u)
 	}
 	c.Floor("C13.pipetype", "typeOf literals written by pipeline nodes", nLits, 28)
 
@@ -1166,4 +1171,115 @@ func embedsNamed(t types.Type, name string, depth int) bool {
 		}
 	}
 	return false
+}
+
+// fmtParseCalls: qualified names of the Format<S>/Parse<S> functions called in a body.
+func fmtParseCalls(info *types.Info, body ast.Node, prefix string) map[string]string {
+	out := map[string]string{} // suffix S -> package path
+	ast.Inspect(body, func(n ast.Node) bool {
+		if call, ok := n.(*ast.CallExpr); ok {
+			if f := core.Callee(info, call); f != nil && f.Pkg() != nil && strings.HasPrefix(f.Name(), prefix) && len(f.Name()) > len(prefix) && core.RecvTypeName(f) == "" {
+				out[strings.TrimPrefix(f.Name(), prefix)] = f.Pkg().Path()
+			}
+		}
+		return true
+	})
+	return out
+}
+
+func c13Codec(c *core.Ctx, pkg *packages.Package, wrecv, wname, rrecv, rname string) {
+	w := c.Need("C13.codec", "tick/ast", wrecv, wname)
+	r := c.Need("C13.codec", "tick/ast", rrecv, rname)
+	if w == nil || r == nil {
+		return
+	}
+	c13CodecFuncs(c, pkg, wrecv+"."+wname, w, r)
+}
+
+func c13CodecFuncs(c *core.Ctx, pkg *packages.Package, what string, w, r *core.Func) {
+	info := pkg.TypesInfo
+	fm := fmtParseCalls(info, w.Decl.Body, "Format")
+	pm := fmtParseCalls(info, r.Decl.Body, "Parse")
+	for _, s := range an.SortedKeys(fm) {
+		got, ok := pm[s]
+		switch {
+		case !ok:
+			// the reader may parse differently named; only report when it parses the same kind with another package
+			continue
+		case got != fm[s]:
+			c.Fail("C13.codec", what+"#"+s, r.Decl.Pos(), "%s is written with %s.Format%s but read with %s.Parse%s: the two syntaxes differ (influxql durations use d, w and u, which time.ParseDuration rejects), so some values cannot be read back", s, fm[s], s, got, s)
+		default:
+			c.Ok("C13.codec", what+"#"+s)
+		}
+	}
+}
+
+func c13StrEscape(c *core.Ctx, pkg *packages.Package) {
+	fn := c.Need("C13.strescape", "tick/ast", "StringNode", "Format")
+	if fn == nil {
+		return
+	}
+	recv := an.RecvVarName(fn.Decl)
+	eng := &an.Engine{Prog: c.P, ElemKeys: true,
+		TrackCall: func(call *ast.CallExpr, callee *types.Func) string {
+			if callee != nil && core.RecvTypeName(callee) == "Buffer" {
+				switch callee.Name() {
+				case "WriteByte", "WriteRune", "WriteString":
+					return callee.Name()
+				}
+			}
+			return ""
+		},
+		Classify: func(a an.Atom) (string, bool) {
+			switch {
+			case a.Key == recv+".TripleQuotes":
+				return "triple", false
+			case a.Op == token.EQL && a.L == recv+".Literal[*]" && a.R == `'\''`:
+				return "isquote", false
+			case a.Op == token.EQL && strings.HasSuffix(a.L, ".Comment") && a.R == "nil":
+				return "nocomment", false
+			}
+			return "", false
+		}}
+	paths, err := eng.Run(fn)
+	if err != nil {
+		c.Undecided("C13.strescape", "StringNode.Format", fn.Decl.Pos(), "%v", err)
+		return
+	}
+	an.CheckTable(c, "C13.strescape", "StringNode.Format", paths, an.Table{Atoms: []string{"triple", "isquote"},
+		Outcome: func(p *an.Path) string {
+			var s []string
+			in := false
+			for _, e := range p.Events {
+				switch {
+				case e.Kind == "loop":
+					in = true
+				case e.Kind == "endloop":
+					in = false
+				case in && e.Kind == "call":
+					switch {
+					case e.Name == "WriteByte" && len(e.Args) == 1 && e.Args[0] == `'\\'`:
+						s = append(s, "backslash")
+					case e.Name == "WriteRune" && len(e.Args) == 1 && e.Args[0] == recv+".Literal[*]":
+						s = append(s, "rune")
+					default:
+						s = append(s, e.Name+"("+strings.Join(e.Args, ",")+")")
+					}
+				case in && (e.Kind == "break" || e.Kind == "continue"):
+					s = append(s, e.Kind)
+				}
+			}
+			return strings.Join(s, ",")
+		},
+		Relevant: func(p *an.Path) bool {
+			a := p.Assign()
+			t, ok := a["triple"]
+			return ok && !t
+		},
+		Expect: func(a map[string]bool) string {
+			if a["isquote"] {
+				return "backslash,rune"
+			}
+			return "rune"
+		}})
 }
